@@ -18,6 +18,9 @@ PROGRAM = """(set 'counter 0)
 (defun op-cdrsort () (stable-sort < (cdr (lit))))
 (defun op-slicepush () (append! (slice 'vector (lit) 0 2) 9))
 (defun op-append0 () (stable-sort < (append 'vector (lit))))
+(defun qlit () '(''(3 1 2) ''(9 8 7) ''(6 5 4)))
+(defun by-min (a b) (< (first (stable-sort < (eval a))) (first (stable-sort < (eval b)))))
+(defun op-quotecmp () (progn (stable-sort by-min (qlit)) (eval (first (qlit)))))
 (defun op-slicefull () (stable-sort < (slice 'vector (lit) 0 3)))
 (defun op-slicetail () (stable-sort < (slice 'vector (lit) 1 3)))
 (defun op-slicecdr () (stable-sort < (slice 'vector (cdr (lit)) 0 2)))
@@ -38,7 +41,7 @@ PROGRAM = """(set 'counter 0)
 (defun op-mapsort () (car (map 'list (lambda (x) (stable-sort < x)) (nested))))
 (defun op-foldsort () (foldl (lambda (acc x) (stable-sort < x)) () (nested)))
 """
-FORM = {"slicefull": "(op-slicefull)", "slicetail": "(op-slicetail)", "slicecdr": "(op-slicecdr)", "sort": "(op-sort)", "cdrsort": "(op-cdrsort)", "slicepush": "(op-slicepush)", "append0": "(op-append0)", "restsort": "(op-restsort)",
+FORM = {"quotecmp": "(op-quotecmp)", "slicefull": "(op-slicefull)", "slicetail": "(op-slicetail)", "slicecdr": "(op-slicecdr)", "sort": "(op-sort)", "cdrsort": "(op-cdrsort)", "slicepush": "(op-slicepush)", "append0": "(op-append0)", "restsort": "(op-restsort)",
         "macroarg": "(op-macroarg)", "define": "(op-define)", "read": "(op-read)", "reload": "(reload)",
         "applyrest": "(op-applyrest)", "applycdr": "(op-applycdr)", "applyreq": "(op-applyreq)", "funcallopt": "(op-funcallopt)",
         "mapsort": "(op-mapsort)", "foldsort": "(op-foldsort)"}
